@@ -45,7 +45,7 @@ CHECKS["C08"] = dict(
 
 CHECKS["C14"] = dict(
     level="exploration",
-    text="Seeded search over activity patterns relative to the idle time-out (one-sided traffic, transfers at the deadline +-1 ms, half-close, back-pressure stalls) and over connect/resolver durations around the establishment limit, on tokio's virtual clock where a week costs microseconds; the oracle is a closure-time window computed from the last transfer the world recorded, plus the socket census.",
+    text="Seeded search over activity patterns relative to the idle time-out (one-sided traffic, transfers at the deadline +-1 ms, half-close, back-pressure stalls), over connect/resolver durations around the establishment limit and over stalls of a TLS client's first and second flight around the handshake time-out, on tokio's virtual clock where a week costs microseconds; the oracle is a closure-time window computed from the last transfer the world recorded, plus the socket census.",
     design="DESIGN.md section 8 (C14)",
     note="Trusted: tokio's paused clock (1 ms wheel). All time-outs carry a sub-millisecond fraction (DESIGN.md 3.2); durations within 3 ms of a limit are undecided.",
 )
@@ -108,6 +108,13 @@ CHECKS["C05"] = dict(
     text="Seeded search over host-class assignments with overlapping names, listen-protocol subsets, SNI and ALPN lists, interleaved with valid and storage-faulted reloads (missing / corrupt certificate, duplicate name, no main host) while handshakes are in flight; a rustls client observes certificate, ALPN and answering channel, a reference routing table per configuration generation decides; failed reloads must leave the previous generation in force.",
     design="DESIGN.md section 8 (C05)",
     note="Trusted: rustls client, reference routing table. HTTP/3 selection on QUIC is not run.",
+)
+
+CHECKS["C12"] = dict(
+    level="exploration",
+    text="Seeded search over ClientHello shapes (hand-built with post-quantum-sized key shares, padding and record fragmentation; rustls-made with small max_fragment_size; synthetic mutations) x delivery schedules (cuts, pieces, byte-at-a-time, gaps, FIN) x endpoint read sizes and read faults, fed to the real TlsListener::listen; an independent reader of the bytes sent decides 'exact or absent, never another value', and the SNI/ALPN seen by rustls behind the peek decide transparency; complete handshakes under segmentation run in the handshake scenario.",
+    design="DESIGN.md section 8 (C12)",
+    note="Trusted: the harness's ClientHello builder/reader, rustls as the TLS stack behind the peek. The QUIC clause is not run.",
 )
 
 NOT_YET = {
